@@ -50,7 +50,12 @@ struct RxModel : mc::Model
     std::string opname(int op) override { return sym_name[ops[op]]; }
     // the receiver took the previous byte into a frame (or nothing was fed yet): its buffer is not a stale leftover
     bool live() const { return rig.last == gs::CONTINUE || rig.last == gs::RESTART; }
-    std::string key() override { return rig.r->implkey() + rig.mon.key() + (ifix_used ? "|i" : "|-") + (live() ? "L" : "-"); }
+    std::string hist; // symbol history, only used as the key when no sound receiver key is available (key_mode 2)
+    std::string key() override
+    {
+        std::string k = gs::key_mode(rig.codec) == 2 ? "H" + hist + "|" + rig.r->implkey() : rig.r->implkey();
+        return k + rig.mon.key() + (ifix_used ? "|i" : "|-") + (live() ? "L" : "-");
+    }
 
     // bytes of a symbol in the current state; false = not enabled
     bool bytes_of(int s, gsref::Bytes &out)
@@ -111,6 +116,7 @@ struct RxModel : mc::Model
         gsref::Bytes bs;
         if (!bytes_of(ops[op], bs))
             return false;
+        hist += (char)('a' + op);
         int flagged0 = rig.mon.flagged;
         if (ops[op] == S_IFIX)
             ifix_used = true;
@@ -131,6 +137,10 @@ struct RxModel : mc::Model
 
 MC_INIT
 {
+    if (gs::key_mode(gs::CFG_V1) == 1)
+        fprintf(stderr, "NOTE: C05 configurable receiver: BFS key from public observers + probe fingerprint (private member names unavailable)\n");
+    if (gs::key_mode(gs::CFG_V1) == 2)
+        fprintf(stderr, "NOTE: C05 configurable receiver: no sound state key available, BFS keyed on the symbol history, depth-bounded\n");
     for (int codec = 0; codec < gs::NCODEC; codec++)
         for (int cap = 2; cap <= 8; cap++)
         {
@@ -139,6 +149,14 @@ MC_INIT
             o.max_states = 6000000;
             std::string name = mc::fmt("streams.%s.cap%d%s", gs::codec_name(codec), cap, small ? ".reduced_alphabet" : "");
             o.thorough_only = cap > 5; // quick: capacities 2..5
+            if (gs::key_mode(codec) == 2)
+            { // no merging on hidden receiver state: every symbol history is its own state, so the depth is bounded
+                o.depth_quick = 5;
+                o.depth_thorough = 6;
+                name += ".history_keyed";
+                if (cap > 5)
+                    continue;
+            }
             mc::add_bfs(name, [codec, cap, small] { return std::unique_ptr<mc::Model>(new RxModel(codec, cap, small)); }, o);
         }
 }
